@@ -493,3 +493,155 @@ def rule_decode_side(repo, res):
     if not ok:
         res.add(Finding("R1", "PVLEncoder.encode_date", "fields", f"encode_date formats only {sorted(ds)}",
                         where=f"pvl/encoder.py:{fn.lineno}"))
+
+
+# ------------------------------------------------------------------ TIME-LANG: what a time writer can return
+_STRF = {"H": "([01][0-9]|2[0-3])", "M": "[0-5][0-9]", "S": "[0-5][0-9]", "d": "(0[1-9]|[12][0-9]|3[01])", "m": "(0[1-9]|1[0-2])",
+         "y": "[0-9]{2}", "Y": "[0-9]{4}", "j": "(00[1-9]|0[1-9][0-9]|[12][0-9]{2}|3[0-5][0-9]|36[0-6])", "f": "[0-9]{6}",
+         "z": r"([+-][0-9]{4}(\.[0-9]+)?)?", "%": "%"}          # what strftime writes for each directive
+
+
+def _strftime_dfa(spec):
+    """language of value.strftime(spec) / f"{value:spec}" for the numeric directives"""
+    out = SL.EPSILON
+    i = 0
+    while i < len(spec):
+        ch = spec[i]
+        if ch == "%" and i + 1 < len(spec):
+            d = spec[i + 1]
+            if d not in _STRF:
+                return None
+            out = SL.concat(out, SL.rx(_STRF[d]))
+            i += 2
+        else:
+            out = SL.concat(out, SL.lit(ch))
+            i += 1
+    return out
+
+
+class _Templates:
+    """path-wise evaluation of the string a method returns: every local that holds text is a DFA, branches fork,
+    raises end the path; integers formatted with a width ({ms:03d}) are digit runs of that width"""
+
+    def __init__(self, repo, cls):
+        self.repo, self.cls = repo, cls
+        self.unknown = []
+
+    def expr(self, e, env, defcls):
+        if isinstance(e, ast.Constant) and isinstance(e.value, str):
+            return SL.lit(e.value)
+        if isinstance(e, ast.Name):
+            return env.get(e.id)
+        if isinstance(e, ast.IfExp):
+            a, b = self.expr(e.body, env, defcls), self.expr(e.orelse, env, defcls)
+            return None if a is None or b is None else a | b
+        if isinstance(e, ast.BinOp) and isinstance(e.op, ast.Add):
+            a, b = self.expr(e.left, env, defcls), self.expr(e.right, env, defcls)
+            return None if a is None or b is None else SL.concat(a, b)
+        if isinstance(e, ast.JoinedStr):
+            d = SL.EPSILON
+            for v in e.values:
+                if isinstance(v, ast.Constant):
+                    part = SL.lit(str(v.value))
+                else:
+                    spec = None
+                    if v.format_spec is not None:
+                        if not all(isinstance(x, ast.Constant) for x in v.format_spec.values):
+                            return None
+                        spec = "".join(str(x.value) for x in v.format_spec.values)
+                    if spec and "%" in spec:
+                        part = _strftime_dfa(spec)
+                    elif spec and _re.fullmatch(r"0?>?0?([0-9]+)d?", spec):
+                        # a zero-padded integer field: its width (a value wider than its field is the business of the
+                        # range checks that precede it, e.g. the millisecond test of the PDS3 writer)
+                        part = SL.rx("[0-9]{%d}" % int(_re.fullmatch(r"0?>?0?([0-9]+)d?", spec).group(1)))
+                    elif spec is None:
+                        part = self.expr(v.value, env, defcls)
+                    else:
+                        part = None
+                    if part is None:
+                        return None
+                d = SL.concat(d, part)
+            return d
+        if isinstance(e, ast.Call) and isinstance(e.func, ast.Attribute) and e.func.attr == "strftime" and e.args \
+                and isinstance(e.args[0], ast.Constant):
+            return _strftime_dfa(str(e.args[0].value))
+        if isinstance(e, ast.Call) and isinstance(e.func, ast.Attribute) and norm(e.func.value) in ("super()", "self") \
+                and e.func.attr.startswith("encode_"):
+            after = defcls if norm(e.func.value) == "super()" else None
+            c, fn = self.repo.resolve_method(self.cls, e.func.attr, after=after)
+            if fn is None:
+                return None
+            outs = list(self.run(self.repo.full_resolved(self.cls, e.func.attr, after)[1], c))
+            return SL.union(outs) if outs else None
+        return None
+
+    def run(self, fn, defcls):
+        yield from self.block(list(fn.body), {}, defcls)
+
+    def block(self, stmts, env, defcls):
+        """yields the DFA of every `return <text>` reachable in *stmts* (followed by nothing: callers pass the rest)"""
+        if not stmts:
+            return
+        s, rest = stmts[0], stmts[1:]
+        if isinstance(s, ast.Expr):
+            yield from self.block(rest, env, defcls)
+        elif isinstance(s, ast.Assign) and len(s.targets) == 1 and isinstance(s.targets[0], ast.Name):
+            env = dict(env)
+            env[s.targets[0].id] = self.expr(s.value, env, defcls)
+            yield from self.block(rest, env, defcls)
+        elif isinstance(s, ast.Assign):
+            env = dict(env)
+            for t in s.targets:
+                for x in ast.walk(t):
+                    if isinstance(x, ast.Name):
+                        env[x.id] = None
+            yield from self.block(rest, env, defcls)
+        elif isinstance(s, ast.AugAssign) and isinstance(s.target, ast.Name) and isinstance(s.op, ast.Add):
+            env = dict(env)
+            a, b = env.get(s.target.id), self.expr(s.value, env, defcls)
+            env[s.target.id] = None if a is None or b is None else SL.concat(a, b)
+            yield from self.block(rest, env, defcls)
+        elif isinstance(s, ast.If):
+            yield from self.block(list(s.body) + rest, env, defcls)
+            yield from self.block(list(s.orelse) + rest, env, defcls)
+        elif isinstance(s, ast.Return):
+            d = self.expr(s.value, env, defcls) if s.value is not None else None
+            if d is None:
+                self.unknown.append(norm(s, 60))
+            else:
+                yield d
+        elif isinstance(s, ast.Raise):
+            return
+        elif isinstance(s, (ast.Pass, ast.Import, ast.ImportFrom, ast.AugAssign)):
+            yield from self.block(rest, env, defcls)
+        else:
+            raise AnalysisError(f"TIME-LANG: statement `{norm(s, 50)}` in a time writer is not a text-building statement the rule reads")
+
+
+def rule_time_lang(repo, res, encoders=("PVLEncoder", "PDSLabelEncoder")):
+    """TIME-LANG: every text a dialect's encode_time can return (all paths; strftime directives and width-formatted
+    integers as digit runs) is a time its own reader accepts.  ODL's zone suffixes are rule R4; here the writers whose
+    output has no numeric zone suffix: PVL/ISIS (PVLEncoder) and PDS3."""
+    for enc in encoders:
+        if not repo.has_cls(enc):
+            raise AnalysisError(f"anchor vanished: class {enc}")
+        defcls, fn = repo.full_resolved(enc, "encode_time")
+        if fn is None:
+            raise AnalysisError(f"anchor vanished: {enc}.encode_time")
+        t = _Templates(repo, enc)
+        outs = list(t.run(fn, defcls))
+        if t.unknown or not outs:
+            raise AnalysisError(f"TIME-LANG: {enc}.encode_time returns text the rule cannot read: {t.unknown[:2]}")
+        W = SL.union(outs)
+        from . import lang
+        g, d = lang.encoder_pairing(repo, enc)
+        rd = lang.Reader(repo, g, d)
+        R = rd.classes()["date/time"]
+        bad = (W - R).witnesses(3)
+        res.oblige("TIME-LANG", f"{enc}.encode_time ({defcls}, {len(outs)} return paths): every text it can write is a time for {d}/{g}", ok=not bad)
+        if bad:
+            res.add(Finding("TIME-LANG", f"{enc}.encode_time", "writes a time its reader does not accept",
+                            f"{enc}.encode_time can return texts such as {bad} that {d}.decode_datetime ({g}) does not accept as a "
+                            "time: the dumped label does not load, or the value comes back as a string",
+                            witness=bad[0], where=f"pvl/encoder.py:{fn.lineno}"))
